@@ -947,6 +947,44 @@ def _unravel_index(idx, shape):
     return tuple(Sym('unravel_index', fz(idx), fz(shape), i) for i in range(len(shape)))
 
 
+def _where(c, a=None, b=None):
+    if a is None:
+        return term('where', c)
+    if isinstance(c, (bool, np.bool_)):
+        return a if c else b
+    try:
+        return merge_cond(as_pred(c), a, b)
+    except Top:
+        return term('where', c, a, b)
+
+
+def _elementwise(name, f):
+    def g(*a, **k):
+        if any(_is_opaque(x) for x in a):
+            return term(name, *a)
+        return f(*a)
+    g.__name__ = name
+    return g
+
+
+def _full(shape, value, dtype=None):
+    return alg._filled(shape, 0) + value
+
+
+def _eye(n, *a, **k):
+    n = _dim(n)
+    d = np.empty((n, n), dtype=object)
+    for i in range(n):
+        for j in range(n):
+            d[i, j] = Poly.const(1 if i == j else 0)
+    return AT((n, n), d)
+
+
+def _outer(a, b):
+    a, b = to_at(a), to_at(b)
+    return a[:, None] * b[None, :]
+
+
 def _take(a, indices, axis=None, **kw):
     return term('take', a, indices, axis=axis)
 
@@ -1158,7 +1196,17 @@ def make_world_externals(world_ref):
              count_nonzero=opaque_fn('count_nonzero'), argsort=opaque_fn('argsort'),
              unravel_index=_unravel_index, divmod=_divmod_model,
              take=_take, einsum=_einsum_model, split=_split_model, cumsum=opaque_fn('cumsum'),
-             sqrt=opaque_fn('sqrt'), exp=opaque_fn('exp'), where=opaque_fn('where'), prod=opaque_fn('prod'),
+             sqrt=opaque_fn('sqrt'), exp=opaque_fn('exp'), where=_where, prod=opaque_fn('prod'),
+             square=_elementwise('square', lambda x: x * x), power=_elementwise('power', lambda x, n: x ** n),
+             multiply=_elementwise('multiply', lambda x, y: x * y), add=_elementwise('add', lambda x, y: x + y),
+             subtract=_elementwise('subtract', lambda x, y: x - y), divide=_elementwise('divide', lambda x, y: x / y),
+             true_divide=_elementwise('divide', lambda x, y: x / y), negative=_elementwise('negative', lambda x: -x),
+             absolute=symaware('abs', alg.jnp_abs), full=_full, full_like=lambda a, v, **k: alg.jnp_zeros_like(a) + v,
+             eye=_eye, identity=_eye, outer=_outer, inner=symaware('dot', alg.jnp_dot), vdot=symaware('dot', alg.jnp_dot),
+             ravel=lambda a: to_at(a).flatten() if not _is_opaque(a) else term('.flatten', a),
+             shape=lambda a: a.shape, ndim=lambda a: a.ndim, size=lambda a: a.size,
+             swapaxes=lambda a, i, j: alg.jnp_moveaxis(alg.jnp_moveaxis(a, i, j), (j - 1 if j > i else j + 1), i) if abs(_dim(i) - _dim(j)) > 1 else alg.jnp_moveaxis(a, i, j),
+             float_=_float, asarray_chkfinite=_jnp_array,
              max=opaque_fn('max'), min=opaque_fn('min'), greater=lambda a, b: lift(a) > lift(b),
              greater_equal=lambda a, b: lift(a) >= lift(b), less=lambda a, b: lift(a) < lift(b),
              less_equal=lambda a, b: lift(a) <= lift(b),
@@ -1168,7 +1216,7 @@ def make_world_externals(world_ref):
     tree = NS("jax.tree", map=_tree_map, leaves=pytree.tree_leaves, reduce=pytree.tree_reduce,
               structure=pytree.tree_structure, transpose=pytree.tree_transpose)
     lax = NS("jax.lax", cond=lax_cond, scan=alg.lax_scan, fori_loop=lax_fori_loop, while_loop=lax_while_loop,
-             dynamic_slice=_dynamic_slice, dynamic_update_slice=_dynamic_update_slice,
+             dynamic_slice=_dynamic_slice, dynamic_update_slice=_dynamic_update_slice, select=_where,
              stop_gradient=stop_gradient_value, top_k=_top_k,
              with_sharding_constraint=lambda x, s: x)
     random = NS("jax.random", split=_random_split, uniform=_random_uniform, choice=_random_choice,
